@@ -1129,7 +1129,8 @@ func init() {
 			c.OverlayRules("C12")
 			// the account is stored under a passphrase the unlocker can still present: the configured default is never overwritten
 			c.ImmutableSliceConfig("C12.O4 usable-at-once/config-bytes", pkgProcess, "process service")
-			c.ParticipantsAsSent("C12") // every participant records the participant list the initiator sent
+			c.ImmutableAfterConstruction("C09.O5 config.immutable", pkgUnlocker, "unlocker passphrase") // the new account unlocks with the passphrases as configured
+			c.ParticipantsAsSent("C12")                                                                 // every participant records the participant list the initiator sent
 			c.ParticipantCount("C12")
 			c.PolynomialFresh("C12")
 			c.FirstSlashOnly("C12")
